@@ -1,13 +1,13 @@
 SPECIFICATION Spec
 CONSTANTS
   Specs = {"r", "a", "b", "d", "j", "g", "m"}
-  WithItems = {"r", "a", "b"}
+  WithItems = {"r", "a", "b", "d"}
   Big = {"r"}
   MaxRoot = 2
   MaxOther = 1
   Forms = {"static", "dynamic", "type"}
-  Targets = {"a", "b", "j", "g", "m"}
-  Sp1 = {"j"}
+  Targets = {"a", "b", "j", "g", "m", "d"}
+  Sp1 = {"j", "a"}
   MayMiss = {"m"}
   MayRedirect = {}
   MayErr = {}
